@@ -15,12 +15,17 @@ T_VarEnc == IsEvent("varint_enc") /\ LET r == Rec[l] IN r.b = VarIntEncode(r.v) 
 T_VarDec == IsEvent("varint_dec") /\ LET r == Rec[l]
                                         p == VarAt(r.b, 1) IN
              IF r.ok THEN p.ok /\ p.v = r.v /\ p.p - 1 = r.len ELSE ~p.ok
+\* a STREAM frame fitted into a capacity it does not fill must be followed by whatever comes next in the packet
+T_FitSeq == IsEvent("fitseq") /\ LET r == Rec[l]
+                                    p == ParseFrame(r.b) IN
+             /\ p.ok /\ p.ty = "stream" /\ p.nat[4] = r.data
+             /\ r.room => (p.len = Len(r.b) - 1 /\ ParseFrame(Drop(r.b, p.len)).ty = "ping")
 T_Packet == IsEvent("packet") /\ LET r == Rec[l]
                                     p == ParsePacket(r.b, r.dcidlen) IN
              IF r.ok THEN p.ok /\ p.ty = r.ty /\ p.f = r.f /\ p.len = r.len ELSE ~p.ok
 T_PnDec == IsEvent("pn_dec") /\ LET r == Rec[l] IN r.got = PnDecodeG(r.largest, r.trunc, r.bits, r.low, r.top)
 \* the sender may choose more bytes than the minimum, never fewer, and the receiver recovers the number
 T_PnEnc == IsEvent("pn_enc") /\ LET r == Rec[l] IN r.len >= PnLen(r.pn, r.largest) /\ r.back
-TNext == T_Frame \/ T_VarEnc \/ T_VarDec \/ T_Packet \/ T_PnDec \/ T_PnEnc
+TNext == T_FitSeq \/ T_Frame \/ T_VarEnc \/ T_VarDec \/ T_Packet \/ T_PnDec \/ T_PnEnc
 TSpec == TInit /\ [][TNext]_l
 =============================================================================
